@@ -295,11 +295,72 @@ def wrap_b(expr):
     return "(let ((x 5)) %s)" % expr
 
 
+def part_d(level):
+    """Scope matrix of the binding forms: which binding an <init>, <step> or body expression refers to when the name being bound
+    (or the loop name) also has an outer binding, and forward references between internal definitions through every kind of
+    <init> (R7RS 4.2.2, 4.2.4, 5.3.2)."""
+    def clos(e):      # a value printed without procedures
+        return "(let ((v %s)) (if (procedure? v) 'proc v))" % e
+    outer = "(let ((n 'outer-n) (w 'outer-w) (loop 'outer-loop)) %s)"
+    forms = [
+        # named let: <init>s are evaluated outside the scope of the loop name AND of the loop variables
+        "(let loop ((a loop)) %s)" % clos("a"),
+        "(let loop ((a (list loop n))) a)",
+        "(let loop ((n w) (w n)) (list n w))",
+        "(let loop ((n (list n)) (i 0)) (if (< i 2) (loop (list 'again n) (+ i 1)) (list n %s)))" % clos("loop"),
+        "(let n ((i n)) (list i %s))" % clos("n"),
+        "(let n ((w n) (k 0)) (if (< k 1) (n (list w 'x) (+ k 1)) (list w k)))",
+        "((lambda (loop) (let loop ((a loop) (k 0)) (if (= k 0) (loop (list a) 1) a))) 'param-loop)",
+        "(let ((loop (lambda (x) (list 'outer-proc x)))) (let loop ((a (loop 1)) (k 0)) (if (= k 0) (loop (list a) 1) a)))",
+        # let / let* / letrec / letrec*
+        "(let ((n w) (w n)) (list n w))",
+        "(let* ((n w) (w n)) (list n w))",
+        "(let* ((n (list n)) (n (list n 2))) n)",
+        "(letrec ((n (lambda () w)) (w 'inner-w)) (n))",
+        "(letrec* ((w 'inner-w) (n (list w))) n)",
+        "(let () (define n (list w)) (define w2 n) (list n w2))",
+        # do: <init>s outside, <step>s and <test> inside
+        "(do ((n (list n) (list 'step n)) (i 0 (+ i 1))) ((= i 2) n))",
+        "(do ((n w (list n w)) (w n (list w n)) (i 0 (+ i 1))) ((= i 1) (list n w)))",
+        "(do ((i 0 (+ i 1)) (acc '() (cons (lambda () i) acc))) ((= i 3) (map (lambda (f) (f)) acc)))",
+        # case-lambda / lambda shadowing its own name
+        "(letrec ((n (lambda (n) (if (symbol? n) n 'other)))) (n 'arg))",
+        "((lambda (n) ((lambda (n) n) (list n))) n)",
+    ]
+    for i, f in enumerate(forms):
+        yield (("D-scope", i), outer % f)
+    # forward references between internal definitions: the closure that refers to a later definition sits in every kind of <init>
+    inits = {
+        "lambda": "(define (get) (list k0 (later)))",
+        "let-over-lambda": "(define get (let ((k 40)) (lambda () (list k (later)))))",
+        "applied-lambda": "(define get ((lambda (k) (lambda () (list k (later)))) 41))",
+        "in-list": "(define tbl (list (lambda () (list 'tbl (later))))) (define (get) ((car tbl)))",
+        "in-vector": "(define tbl (vector 0 (lambda () (later)))) (define (get) ((vector-ref tbl 1)))",
+        "nested-define": "(define (get) (define (inner) (later)) (list 'inner (inner)))",
+        "if-init": "(define get (if k0 (lambda () (later)) (lambda () 'no)))",
+        "cons-cell": "(define get (cdr (cons 1 (lambda () (cons 'c (later))))))",
+    }
+    laters = {
+        "define-proc": "(define (later) (list 'later k0))",
+        "define-lambda": "(define later (lambda () (list 'later k0)))",
+        "define-let-lambda": "(define later (let ((z 2)) (lambda () (list 'later z))))",
+    }
+    trailing = {"none": "", "value-after": "(define z 0)", "proc-after": "(define (after) (get))", "both": "(define z 0) (define (after) (list z (get)))"}
+    for ik, ini in sorted(inits.items()):
+        for lk, lat in sorted(laters.items()):
+            for tk, tr in sorted(trailing.items()):
+                call = "(list (get) (get))" if "after" not in tr else "(list (get) (after))"
+                yield (("D-fwd", ik, lk, tk), "((lambda (k0) %s %s %s %s) 7)" % (ini, lat, tr, call))
+                yield (("D-fwd-top", ik, lk, tk), "(let () (define k0 7) %s %s %s %s)" % (ini, lat, tr, call))
+
+
 def all_programs(level):
     for d, body in part_a(level):
         yield d, body
     for d, e in part_b(level):
         yield d, wrap_b(e)
+    for d, body in part_d(level):
+        yield d, body
 
 
 # ------------------------------------------------------------------------------------------ part C (C09)
